@@ -1,335 +1,354 @@
-"""Hunt for C09 violations on the unmodified tree.
+"""Hunt for violations of C09 on the unmodified tree.
 
-Exhaustive over the property's quantifier (it is finite), plus scores through
-EnvSpec.compatibility / wheel_compatibility, parse round trips, repeated /
-interleaved access (caches), and a few probes just outside the quantifier.
+Run: cd /tmp/wt/C09i && PYTHONPATH=/tmp/wt/C09i/src /venv/bin/python hunt_C09.py
 
-Run: cd /tmp/wt/C09g && PYTHONPATH=/tmp/wt/C09g/src /venv/bin/python hunt_C09.py
+Oracles:
+  * rule_oracle(): written from PEP 600 / 656 / the macOS rules in the property text
+  * packaging.tags with its probes stubbed (sysconfig.get_platform, glibc / musl version,
+    ELF ABI check, platform.system, platform.mac_ver, 32-bit flag)
 """
+
 from __future__ import annotations
 
+import contextlib
 import itertools
-import random
+import platform as _platform
 import sys
+import sysconfig
+from collections import Counter
 from unittest import mock
 
-import packaging._manylinux as _ml
-import packaging._musllinux as _mu
-import packaging.tags as ptags
+import packaging
+import packaging._manylinux as ML
+import packaging._musllinux as MU
+import packaging.tags as T
 
-from dep_logic.tags import EnvSpec, os as dos
-from dep_logic.tags.platform import Arch, Platform, PlatformError
+from dep_logic.tags import EnvSpec, Platform, PlatformError
+from dep_logic.tags import os as dos
+from dep_logic.tags.platform import Arch
+from dep_logic.specifiers import parse_version_specifier
 
 LINUX_ARCHS = ["x86_64", "aarch64", "armv7l", "ppc64le", "ppc64", "s390x", "riscv64"]
-LEGACY = {5: "manylinux1", 12: "manylinux2010", 17: "manylinux2014"}
-
-violations: list[str] = []
-outside: list[str] = []
-ncases = 0
+findings: list[str] = []
+cases = Counter()
 
 
-def is_fat(tag: str) -> bool:
-    return tag.rsplit("_", 1)[-1].startswith("fat")
+def report(kind: str, text: str) -> None:
+    findings.append(f"[{kind}] {text}")
 
 
-def nofat(tags):
-    return [t for t in tags if not is_fat(t)]
-
-
-# ---------------------------------------------------------------- rule oracle
-def rule_manylinux(minor: int, arch: str) -> list[str]:
-    floor = 5 if arch in ("x86_64", "i686") else 17
-    out = []
-    k = minor
-    while k >= floor:
-        out.append(f"manylinux_2_{k}_{arch}")
-        if k in LEGACY:
-            out.append(f"{LEGACY[k]}_{arch}")
-        k -= 1
-    out.append(f"linux_{arch}")
-    return out
-
-
-def rule_musllinux(minor: int, arch: str) -> set[str]:
-    return {f"linux_{arch}"} | {f"musllinux_1_{k}_{arch}" for k in range(1, minor + 1)}
-
-
-def rule_macos(major: int, minor: int, arch: str) -> list[str]:
-    fmts = (
-        ["x86_64", "intel", "universal2", "universal"]
-        if arch == "x86_64"
-        else ["arm64", "universal2"]
-    )
-    out = []
-    if major == 10:
-        assert arch == "x86_64"
-        for m in range(minor, 3, -1):
-            out += [f"macosx_10_{m}_{f}" for f in fmts]
-        return out
-    for M in range(major, 10, -1):
-        out += [f"macosx_{M}_0_{f}" for f in fmts]
-    for m in range(16, 3, -1):
-        if arch == "x86_64":
-            out += [f"macosx_10_{m}_{f}" for f in fmts]
+# --------------------------------------------------------------------------- oracles
+def rule_oracle(p: Platform) -> list[str]:
+    """Independent statement of the standards (newest first; linux_<arch> position left
+    out of the order comparison, it is compared separately)."""
+    o, a = p.os, p.arch.value
+    if isinstance(o, dos.Manylinux):
+        floor = 5 if a in ("x86_64", "i686") else 17
+        legacy = {5: "manylinux1", 12: "manylinux2010", 17: "manylinux2014"}
+        out = []
+        k = o.minor
+        while k >= floor:
+            out.append(f"manylinux_2_{k}_{a}")
+            if k in legacy:
+                out.append(f"{legacy[k]}_{a}")
+            k -= 1
+        return out + [f"linux_{a}"]
+    if isinstance(o, dos.Musllinux):
+        return [f"musllinux_1_{k}_{a}" for k in range(o.minor, 0, -1)] + [f"linux_{a}"]
+    if isinstance(o, dos.Macos):
+        a = "arm64" if p.arch is Arch.Aarch64 else "x86_64"
+        fm = ["arm64", "universal2"] if a == "arm64" else ["x86_64", "intel", "universal2", "universal"]
+        rel = []
+        if o.major >= 11:
+            rel += [(m, 0) for m in range(o.major, 10, -1)]
+            rel += [(10, m) for m in range(16, 3, -1)]
         else:
-            out.append(f"macosx_10_{m}_universal2")
+            rel += [(10, m) for m in range(o.minor, 3, -1)]
+        out = []
+        for M, m in rel:
+            for f in fm:
+                if f == "arm64" and M < 11:
+                    continue
+                out.append(f"macosx_{M}_{m}_{f}")
+        return out
+    if isinstance(o, dos.Windows):
+        return [{"x86": "win32", "x86_64": "win_amd64", "aarch64": "win_arm64"}[p.arch.value]]
+    raise AssertionError(p)
+
+
+@contextlib.contextmanager
+def stub_linux(arch: str, glibc=None, musl=None, bits32=False):
+    with contextlib.ExitStack() as st:
+        st.enter_context(mock.patch.object(sysconfig, "get_platform", lambda: f"linux-{arch}"))
+        st.enter_context(mock.patch.object(_platform, "system", lambda: "Linux"))
+        st.enter_context(mock.patch.object(ML, "_get_glibc_version", lambda: glibc or (-1, -1)))
+        st.enter_context(mock.patch.object(ML, "_have_compatible_abi", lambda exe, archs: True))
+        st.enter_context(
+            mock.patch.object(MU, "_get_musl_version", lambda exe: MU._MuslVersion(*musl) if musl else None)
+        )
+        # the 32-bit flag is bound as a default argument of _linux_platforms
+        st.enter_context(mock.patch.object(T._linux_platforms, "__defaults__", (bits32,)))
+        yield
+
+
+def packaging_linux(arch: str, glibc=None, musl=None) -> list[str]:
+    with stub_linux(arch, glibc, musl):
+        return list(T._linux_platforms(is_32bit=False))
+
+
+def scores(p: Platform, tags: list[str]) -> dict[str, int | None]:
+    env = EnvSpec(parse_version_specifier(">=3.8"), p, None)
+    out = {}
+    for t in tags:
+        c = env.compatibility(["py3"], ["none"], [t])
+        out[t] = None if c is None else c[3]
     return out
 
 
-# ----------------------------------------------------------- packaging oracle
-def pk_manylinux(minor: int, arch: str) -> list[str]:
-    with mock.patch.object(_ml, "_get_glibc_version", lambda: (2, minor)), \
-         mock.patch.object(_ml, "_have_compatible_abi", lambda exe, archs: True):
-        _ml._is_compatible  # noqa: B018
-        tags = list(_ml.platform_tags([arch]))
-    return tags + [f"linux_{arch}"]
-
-
-def pk_musllinux(minor: int, arch: str) -> set[str]:
-    with mock.patch.object(_mu, "_get_musl_version", lambda exe: _mu._MuslVersion(1, minor)):
-        tags = set(_mu.platform_tags([arch]))
-    tags.discard(f"musllinux_1_0_{arch}")  # property: 1 <= K
-    return tags | {f"linux_{arch}"}
-
-
-def pk_macos(major: int, minor: int, arch: str) -> list[str]:
-    return nofat(ptags.mac_platforms((major, minor), arch))
-
-
-# ------------------------------------------------------------------- checking
-def check_platform(p: Platform, expect, desc: str, ordered: bool) -> None:
-    global ncases
-    ncases += 1
-    try:
-        got = nofat(p.compatible_tags)
-    except Exception as e:  # noqa: BLE001
-        violations.append(f"{desc}: compatible_tags raised {type(e).__name__}: {e}")
-        return
-    if ordered:
-        if got != list(expect):
-            violations.append(f"{desc}: library {got} != oracle {list(expect)}")
-    else:
-        if set(got) != set(expect) or len(got) != len(set(got)):
-            violations.append(f"{desc}: library {sorted(got)} != oracle {sorted(expect)}")
-    # score through EnvSpec: every accepted tag is compatible, score strictly
-    # decreasing along the list, `any` lowest; foreign tags rejected.
-    env = EnvSpec.from_spec(">=3.8", None, None)
-    env = EnvSpec(env.requires_python, p, None)
-    full = p.compatible_tags
-    prev = None
-    for t in full:
-        ncases += 1
-        c = env.compatibility(["py3"], ["none"], [t])
-        if c is None:
-            violations.append(f"{desc}: accepted tag {t} scored None")
-            continue
-        if prev is not None and not c[3] < prev:
-            violations.append(f"{desc}: score of {t} = {c[3]} not below previous {prev}")
-        prev = c[3]
-        # upper-cased wheel tag reads the same
-        c2 = env.wheel_compatibility(f"x-1-py3-none-{t.upper()}.whl")
-        if c2 != c:
-            violations.append(f"{desc}: upper-cased {t} -> {c2} != {c}")
-    cany = env.compatibility(["py3"], ["none"], ["any"])
-    if cany is None or (prev is not None and not cany[3] < prev) or cany[3] <= 0:
-        violations.append(f"{desc}: any scored {cany}, last platform score {prev}")
-
-
-def foreign_tags(arch_of_p: str):
-    """Tags that must never be accepted unless the oracle lists them."""
-    cands = []
-    for a in LINUX_ARCHS + ["i686", "x86", "arm64", "amd64", "armv8l", "loongarch64"]:
-        for k in (0, 1, 4, 5, 6, 11, 12, 16, 17, 18, 28, 34, 50, 51):
-            cands.append(f"manylinux_2_{k}_{a}")
-        cands += [f"manylinux1_{a}", f"manylinux2010_{a}", f"manylinux2014_{a}", f"linux_{a}"]
-        for k in range(0, 7):
-            cands.append(f"musllinux_1_{k}_{a}")
-        cands.append(f"manylinux_1_17_{a}")
-        cands.append(f"manylinux_3_0_{a}")
-        cands.append(f"musllinux_2_1_{a}")
-    for M, m in [(10, 0), (10, 3), (10, 4), (10, 9), (10, 16), (10, 17), (11, 0), (11, 1),
-                 (12, 0), (12, 3), (14, 0), (14, 2), (30, 0), (31, 0), (9, 0)]:
-        for f in ("x86_64", "arm64", "intel", "universal", "universal2", "i386", "ppc", "ppc64", "aarch64"):
-            cands.append(f"macosx_{M}_{m}_{f}")
-    cands += ["win32", "win_amd64", "win_arm64", "win_ia64", "win64", "windows_amd64", ""]
-    return cands
-
-
-FOREIGN = foreign_tags("")
-
-
-def check_foreign(p: Platform, accept: set[str], desc: str) -> None:
-    global ncases
-    env = EnvSpec(EnvSpec.from_spec(">=3.8").requires_python, p, None)
-    for t in FOREIGN:
-        ncases += 1
-        c = env.compatibility(["py3"], ["none"], [t])
-        if (c is not None) != (t in accept):
-            violations.append(f"{desc}: tag {t!r} library={'accept' if c else 'reject'} oracle={'accept' if t in accept else 'reject'}")
-
-
-def main() -> None:
-    global ncases
-    # ---- manylinux
-    for arch in LINUX_ARCHS:
-        for minor in range(5, 51):
-            r, k = rule_manylinux(minor, arch), pk_manylinux(minor, arch)
-            assert r == k, (arch, minor, r, k)
-            for how, p in (
-                ("ctor", Platform(dos.Manylinux(2, minor), Arch(arch))),
-                ("parse", Platform.parse(f"manylinux_2_{minor}_{arch}")),
-            ):
-                d = f"manylinux_2_{minor}_{arch} [{how}]"
-                check_platform(p, r, d, ordered=True)
-                check_foreign(p, set(r), d)
-    # ---- musllinux
-    for arch in LINUX_ARCHS:
-        for minor in range(1, 6):
-            r, k = rule_musllinux(minor, arch), pk_musllinux(minor, arch)
-            assert r == k, (arch, minor, r, k)
-            for how, p in (
-                ("ctor", Platform(dos.Musllinux(1, minor), Arch(arch))),
-                ("parse", Platform.parse(f"musllinux_1_{minor}_{arch}")),
-            ):
-                d = f"musllinux_1_{minor}_{arch} [{how}]"
-                check_platform(p, r, d, ordered=False)
-                check_foreign(p, r, d)
-    # ---- macOS
-    mac = [(10, m, "x86_64") for m in range(4, 17)]
+# --------------------------------------------------------------------------- 1. exhaustive
+def all_platforms():
+    for k in range(5, 51):
+        for a in LINUX_ARCHS:
+            yield Platform(dos.Manylinux(2, k), Arch(a))
+    for k in range(1, 6):
+        for a in LINUX_ARCHS:
+            yield Platform(dos.Musllinux(1, k), Arch(a))
+    for k in range(4, 17):
+        yield Platform(dos.Macos(10, k), Arch.X86_64)
     for M in range(11, 31):
-        for m in (0, 1, 3, 7):
-            mac += [(M, m, "x86_64"), (M, m, "arm64")]
-    for M, m, arch in mac:
-        r, k = rule_macos(M, m, arch), pk_macos(M, m, arch)
-        assert r == k, (M, m, arch)
-        for how, p in (
-            ("ctor", Platform(dos.Macos(M, m), Arch.parse(arch))),
-            ("parse", Platform.parse(f"macos_{M}_{m}_{arch}")),
-        ):
-            d = f"macos_{M}_{m}_{arch} [{how}]"
-            check_platform(p, r, d, ordered=True)
-            check_foreign(p, set(r), d)
-    # ---- windows
-    for name, arch, tag in (("x86", Arch.X86, "win32"), ("amd64", Arch.X86_64, "win_amd64"),
-                            ("arm64", Arch.Aarch64, "win_arm64"), ("i686", Arch.X86, "win32"),
-                            ("x86_64", Arch.X86_64, "win_amd64"), ("aarch64", Arch.Aarch64, "win_arm64")):
-        for how, p in (("ctor", Platform(dos.Windows(), arch)), ("parse", Platform.parse(f"windows_{name}"))):
-            d = f"windows_{name} [{how}]"
-            check_platform(p, [tag], d, ordered=True)
-            check_foreign(p, {tag}, d)
-    # ---- aliases
-    for alias, exp in (("linux", rule_manylinux(17, "x86_64")), ("windows", ["win_amd64"]),
-                       ("macos", rule_macos(14, 0, "arm64")), ("macos_arm64", rule_macos(14, 0, "arm64")),
-                       ("macos_x86_64", rule_macos(14, 0, "x86_64"))):
-        check_platform(Platform.parse(alias), exp, f"alias {alias}", ordered=True)
-    check_platform(Platform.parse("alpine"), rule_musllinux(2, "x86_64"), "alias alpine", ordered=False)
+        for m in range(0, 10):
+            for a in (Arch.X86_64, Arch.Aarch64):
+                yield Platform(dos.Macos(M, m), a)
+    for a in (Arch.X86, Arch.X86_64, Arch.Aarch64):
+        yield Platform(dos.Windows(), a)
 
-    # ---- str() round trip keeps the tag list
-    for arch in LINUX_ARCHS:
-        for minor in (5, 12, 17, 28, 50):
-            p = Platform(dos.Manylinux(2, minor), Arch(arch))
-            ncases += 1
-            if Platform.parse(str(p)).compatible_tags != p.compatible_tags:
-                violations.append(f"str round trip changes tags for {p}")
-    for M, m, arch in mac:
-        p = Platform(dos.Macos(M, m), Arch.parse(arch))
-        ncases += 1
-        if Platform.parse(str(p)).compatible_tags != p.compatible_tags:
-            violations.append(f"str round trip changes tags for {p}")
-    for arch in (Arch.X86, Arch.X86_64, Arch.Aarch64):
-        p = Platform(dos.Windows(), arch)
-        ncases += 1
+
+def section_exhaustive():
+    diff_kinds: dict[str, list[str]] = {}
+
+    def note(kind, example):
+        diff_kinds.setdefault(kind, []).append(example)
+
+    for p in all_platforms():
+        cases["platform lists"] += 1
+        lib = list(p.compatible_tags)
+        assert len(lib) == len(set(lib)), ("duplicate tags", p)
+        rule = rule_oracle(p)
+        o = p.os
+        if isinstance(o, dos.Manylinux):
+            pk = packaging_linux(p.arch.value, glibc=(2, o.minor))
+        elif isinstance(o, dos.Musllinux):
+            pk = packaging_linux(p.arch.value, musl=(1, o.minor))
+        elif isinstance(o, dos.Macos):
+            pk = list(T.mac_platforms((o.major, o.minor), "arm64" if p.arch is Arch.Aarch64 else "x86_64"))
+        else:
+            pk = rule  # statically specified, no packaging generator
+
+        # (a) library vs the rule oracle, fat* ignored as the property text says
+        lib_nofat = [t for t in lib if "_fat" not in t]
+        if isinstance(o, dos.Musllinux):
+            if set(lib_nofat) != set(rule):
+                note("rule-set", f"{p}: {sorted(set(lib_nofat) ^ set(rule))}")
+        elif lib_nofat != rule:
+            note("rule-order/set", f"{p}: lib={lib_nofat[:4]}.. rule={rule[:4]}..")
+
+        # (b) library vs packaging: set
+        extra = [t for t in lib if t not in pk]
+        missing = [t for t in pk if t not in lib]
+        for t in extra:
+            note("lib claims, packaging does not: " + t.split("_")[-1 if "fat" in t else 0], f"{p}: {t}")
+        for t in missing:
+            key = "fat3" if t.endswith("fat3") else ("musllinux_1_0" if "musllinux_1_0" in t else t)
+            note("packaging claims, lib does not: " + key, f"{p}: {t}")
+        # (c) order among common tags
+        common_lib = [t for t in lib if t in pk]
+        common_pk = [t for t in pk if t in lib]
+        if common_lib != common_pk:
+            wo = [t for t in common_lib if not t.startswith("linux_")]
+            wo_pk = [t for t in common_pk if not t.startswith("linux_")]
+            if wo == wo_pk:
+                note(
+                    f"order: linux_<arch> is {'first' if common_pk[0].startswith('linux_') else 'last'} in packaging "
+                    f"{packaging.__version__}, {'first' if common_lib[0].startswith('linux_') else 'last'} in the library "
+                    f"({type(o).__name__})",
+                    str(p),
+                )
+            else:
+                note(f"order of non-linux tags differs ({type(o).__name__})", str(p))
+
+        # (d) scores follow the list order, `any` strictly last, unknown tags rejected
+        sc = scores(p, lib + ["any", "bogus_tag"])
+        cases["score checks"] += len(sc)
+        seq = [sc[t] for t in lib] + [sc["any"]]
+        assert all(isinstance(s, int) for s in seq), (p, sc)
+        assert all(x > y for x, y in zip(seq, seq[1:])), ("scores not strictly decreasing", p)
+        assert sc["bogus_tag"] is None
+
+    for kind, ex in sorted(diff_kinds.items()):
+        report("exhaustive", f"{kind}: {len(ex)} occurrences, e.g. {ex[0]}")
+
+
+# --------------------------------------------------------------------------- 2. concrete packaging-26 divergences
+def section_concrete():
+    # 2a. preference of linux_<arch> relative to manylinux (list order == score)
+    p = Platform.parse("manylinux_2_28_x86_64")
+    env = EnvSpec.from_spec(">=3.9", "manylinux_2_28_x86_64", "cpython")
+    a = env.wheel_compatibility("pkg-1.0-cp39-abi3-linux_x86_64.whl")
+    b = env.wheel_compatibility("pkg-1.0-cp39-abi3-manylinux_2_28_x86_64.whl")
+    pk = packaging_linux("x86_64", glibc=(2, 28))
+    lib_pref = "linux_x86_64" if a[3] > b[3] else "manylinux_2_28_x86_64"
+    pk_pref = "linux_x86_64" if pk.index("linux_x86_64") < pk.index("manylinux_2_28_x86_64") else "manylinux_2_28_x86_64"
+    cases["concrete"] += 1
+    if lib_pref != pk_pref:
+        report(
+            "NEW?",
+            f"EnvSpec(>=3.9, manylinux_2_28_x86_64): platform score linux_x86_64={a[3]}, manylinux_2_28_x86_64={b[3]} "
+            f"-> library prefers {lib_pref}; packaging {packaging.__version__} _linux_platforms() yields {pk[:2]}.. "
+            f"-> prefers {pk_pref} (the statement says the order is 'exactly as packaging.tags orders it')",
+        )
+    # 2b. fat32 / fat3
+    p = Platform.parse("macos_12_0_x86_64")
+    pk = list(T.mac_platforms((12, 0), "x86_64"))
+    for t in ("macosx_10_9_fat32", "macosx_10_9_fat3", "macosx_10_9_fat64"):
+        cases["concrete"] += 1
+        lib_has, pk_has = t in p.compatible_tags, t in pk
+        if lib_has != pk_has or lib_has:
+            report(
+                "NOTE",
+                f"macos_12_0_x86_64 tag {t}: library accepts={lib_has}, packaging {packaging.__version__} accepts={pk_has}, "
+                "property text says legacy fat* formats are not claimed",
+            )
+
+
+# --------------------------------------------------------------------------- 3. Platform.current() under stubs
+def section_current():
+    def current_vs_packaging(desc, ctx):
+        cases["Platform.current"] += 1
+        with ctx:
+            try:
+                lib = Platform.current()
+                lib_tags = list(lib.compatible_tags)
+            except Exception as e:  # noqa: BLE001
+                lib, lib_tags = f"{type(e).__name__}: {e}", None
+            pk = list(T.platform_tags())
+        if lib_tags is None:
+            report("current()", f"{desc}: library raises {lib}; packaging gives {pk[:3]}..")
+        elif set(lib_tags) != set(pk):
+            d1 = [t for t in lib_tags if t not in pk][:3]
+            d2 = [t for t in pk if t not in lib_tags][:3]
+            report("current()", f"{desc}: Platform.current()={lib}; only-lib={d1} only-packaging={d2}")
+        elif [t for t in lib_tags if not t.startswith(("linux_", "musllinux"))] != [
+            t for t in pk if not t.startswith(("linux_", "musllinux"))
+        ]:
+            report("current()", f"{desc}: same set, different order of manylinux/macOS tags")
+
+    for a in LINUX_ARCHS + ["i686", "armv8l", "loongarch64"]:
+        current_vs_packaging(f"linux-{a}, glibc 2.31", stub_linux(a, glibc=(2, 31)))
+    current_vs_packaging("linux-x86_64 32-bit interpreter, glibc 2.31", stub_linux("x86_64", glibc=(2, 31), bits32=True))
+    for a in ("x86_64", "aarch64"):
+        current_vs_packaging(f"linux-{a}, musl 1.2", stub_linux(a, musl=(1, 2)))
+
+    @contextlib.contextmanager
+    def stub_mac(ver, machine):
+        with contextlib.ExitStack() as st:
+            st.enter_context(mock.patch.object(sysconfig, "get_platform", lambda: f"macosx-11.0-{machine}"))
+            st.enter_context(mock.patch.object(_platform, "system", lambda: "Darwin"))
+            st.enter_context(mock.patch.object(_platform, "mac_ver", lambda: (ver, ("", "", ""), machine)))
+            yield
+
+    for ver, m in [("14.5", "arm64"), ("14.5.1", "x86_64"), ("11.0", "arm64"), ("10.15.7", "x86_64"), ("26.0", "arm64"), ("12.3", "x86_64")]:
+        current_vs_packaging(f"macOS {ver} {m}", stub_mac(ver, m))
+
+    @contextlib.contextmanager
+    def stub_win(plat):
+        with contextlib.ExitStack() as st:
+            st.enter_context(mock.patch.object(sysconfig, "get_platform", lambda: plat))
+            st.enter_context(mock.patch.object(_platform, "system", lambda: "Windows"))
+            yield
+
+    for plat in ("win-amd64", "win32", "win-arm64"):
+        current_vs_packaging(f"windows {plat}", stub_win(plat))
+
+
+# --------------------------------------------------------------------------- 4. parse entry point
+def section_parse():
+    # every spelling of an in-quantifier platform must give the same tags
+    spellings = {
+        "manylinux_2_17_x86_64": ["linux", "manylinux_2_17_amd64", "manylinux_02_017_x86_64"],
+        "manylinux_2_31_aarch64": ["manylinux_2_31_arm64"],
+        "musllinux_1_2_x86_64": ["alpine", "musllinux_1_2_amd64"],
+        "macos_14_0_arm64": ["macos", "macos_arm64", "macos_14_0_aarch64"],
+        "macos_14_0_x86_64": ["macos_x86_64", "macos_14_0_amd64"],
+        "windows_amd64": ["windows", "windows_x86_64"],
+        "windows_x86": ["windows_i686", "windows_i386"],
+        "windows_arm64": ["windows_aarch64"],
+    }
+    for canon, alts in spellings.items():
+        base = Platform.parse(canon)
+        assert str(base) == canon and Platform.parse(str(base)) == base
+        for s in alts:
+            cases["parse"] += 1
+            q = Platform.parse(s)
+            if q != base or q.compatible_tags != base.compatible_tags or hash(q) != hash(base):
+                report("parse", f"{s!r} -> {q} differs from {canon}")
+    for p in all_platforms():
+        cases["parse"] += 1
+        q = Platform.parse(str(p))
+        assert q == p and q.compatible_tags == p.compatible_tags, p
+        e = EnvSpec(parse_version_specifier(">=3.9"), p, None)
+        d = e.as_dict()
+        e2 = EnvSpec.from_spec(d["requires_python"], d["platform"])
+        assert e2 == e and hash(e2) == hash(e), p
+    for s in ("win32", "", "windows_", "macosx_10_9_x86_64", "win_amd64"):
+        cases["parse"] += 1
         try:
-            q = Platform.parse(str(p))
-            if q.compatible_tags != p.compatible_tags:
-                violations.append(f"str round trip changes tags for {p}: {q.compatible_tags}")
+            q = Platform.parse(s)
+            if s == "win_amd64":
+                report(
+                    "NOTE (generic family, docstring example)",
+                    f"Platform.parse({s!r}) -> {q!r}, tags {q.compatible_tags} (docstring names win_amd64 as an example input)",
+                )
+        except PlatformError:
+            pass
         except Exception as e:  # noqa: BLE001
-            violations.append(f"Platform.parse(str({p!r})) raised {type(e).__name__}: {e}")
+            report("NOTE wrong exception type", f"Platform.parse({s!r}) raises {type(e).__name__}({e}) instead of PlatformError")
 
-    # ---- multi-tag wheels: score is the best (max) of the tags, as packaging
-    # would pick the first matching supported tag.  Random platform-tag sets.
-    rng = random.Random(9)
-    plats = [Platform(dos.Manylinux(2, rng.randint(5, 50)), Arch(rng.choice(LINUX_ARCHS))) for _ in range(40)]
-    plats += [Platform(dos.Macos(M, m), Arch.parse(a)) for M, m, a in rng.sample(mac, 40)]
-    for p in plats:
-        env = EnvSpec(EnvSpec.from_spec(">=3.8").requires_python, p, None)
-        full = [*p.compatible_tags, "any"]
-        for _ in range(150):
-            ncases += 1
-            n = rng.randint(1, 4)
-            tags = [rng.choice(full + FOREIGN) for _ in range(n)]
-            c = env.compatibility(["py3"], ["none"], tags)
-            idx = [full.index(t) for t in tags if t in full]
-            if not idx:
-                if c is not None:
-                    violations.append(f"{p}: tags {tags} accepted but none is supported")
-                continue
-            if c is None or c[3] != len(full) - min(idx):
-                violations.append(f"{p}: tags {tags} -> {c}, expected platform score {len(full) - min(idx)}")
-            # better wheels (earlier tag) must score strictly higher
-            # and the filename route agrees with the list route
-            fn = "pkg-1.0-py3-none-" + ".".join(tags) + ".whl"
-            if all(t for t in tags):
-                c2 = env.wheel_compatibility(fn)
-                if c2 != c:
-                    violations.append(f"{p}: {fn} -> {c2} but list route {c}")
 
-    # ---- cache / order of earlier operations: tag lists are stable under
-    # repeated access and under interleaved access from equal instances
-    for _ in range(200):
-        ncases += 1
-        arch = rng.choice(LINUX_ARCHS)
-        minor = rng.randint(5, 50)
-        a = Platform(dos.Manylinux(2, minor), Arch(arch))
-        b = Platform(dos.Manylinux(2, minor), Arch(arch))
-        t1 = list(a.compatible_tags)
-        EnvSpec(EnvSpec.from_spec(">=3.8").requires_python, a, None).compatibility(["py3"], ["none"], ["any"])
-        if list(a.compatible_tags) != t1 or list(b.compatible_tags) != t1 or hash(a) != hash(b) or a != b:
-            violations.append(f"unstable tags for manylinux_2_{minor}_{arch}")
+# --------------------------------------------------------------------------- 5. sequences / aliasing
+def section_sequences():
+    p = Platform.parse("manylinux_2_17_x86_64")
+    before = list(p.compatible_tags)
+    env = EnvSpec.from_spec(">=3.9", "manylinux_2_17_x86_64")
+    for t in before + ["any"] * 3:
+        env.compatibility(["py3"], ["none"], [t, "any"])
+    cases["sequence"] += 1
+    assert list(env.platform.compatible_tags) == before, "cache mutated by evaluation"
+    # multi-tag wheels: best tag wins regardless of position
+    import random
 
-    # ---- probes just outside the quantifier (reported separately)
-    def probe(desc, fn, expect_desc, ok):
-        try:
-            r = fn()
-            res = repr(r)
-        except Exception as e:  # noqa: BLE001
-            r = e
-            res = f"{type(e).__name__}: {e}"
-        if not ok(r):
-            outside.append(f"{desc}: library -> {res}; expected {expect_desc}")
-
-    pk_i686 = pk_manylinux(17, "i686")
-    probe("Platform.parse('manylinux_2_17_i686').compatible_tags",
-          lambda: Platform.parse("manylinux_2_17_i686").compatible_tags,
-          f"packaging says {pk_i686[:2]} ... (arch spelled i686)", lambda r: r == pk_i686)
-    probe("Platform.parse('freebsd_13_x86_64').compatible_tags",
-          lambda: Platform.parse("freebsd_13_x86_64").compatible_tags,
-          "['freebsd_13_x86_64'] (sysconfig platform, normalised)", lambda r: r == ["freebsd_13_x86_64"])
-    probe("Platform.parse('illumos_5_11_x86_64')",
-          lambda: Platform.parse("illumos_5_11_x86_64"),
-          "a Platform or PlatformError", lambda r: isinstance(r, (Platform, PlatformError)))
-    for bad in ("manylinux_2_17_foo", "windows_foo", "foo", "macos_14_0_i386"):
-        probe(f"Platform.parse({bad!r})", lambda bad=bad: Platform.parse(bad),
-              "PlatformError", lambda r: isinstance(r, (Platform, PlatformError)))
-    probe("Platform(Manylinux(2,17), Arch.LoongArch64).compatible_tags",
-          lambda: Platform(dos.Manylinux(2, 40), Arch.LoongArch64).compatible_tags,
-          "packaging: manylinux_2_40..2_17 + manylinux2014 + linux_loongarch64",
-          lambda r: r == pk_manylinux(40, "loongarch64"))
-    probe("Platform(Macos(10,3), X86_64).compatible_tags", lambda: Platform(dos.Macos(10, 3), Arch.X86_64).compatible_tags,
-          "[]", lambda r: r == [])
-    probe("Platform(Macos(9,0), X86_64).compatible_tags", lambda: Platform(dos.Macos(9, 0), Arch.X86_64).compatible_tags,
-          "[] or PlatformError", lambda r: r == [] or isinstance(r, PlatformError))
-    probe("Platform(Musllinux(1,0), x86_64)", lambda: Platform(dos.Musllinux(1, 0), Arch.X86_64).compatible_tags,
-          "['linux_x86_64']", lambda r: r == ["linux_x86_64"])
-
-    print(f"cases run: {ncases}")
-    print(f"violations inside the quantifier: {len(violations)}")
-    for v in violations[:50]:
-        print("  VIOLATION", v)
-    print(f"observations outside the quantifier: {len(outside)}")
-    for v in outside:
-        print("  OUTSIDE", v)
+    rnd = random.Random(9)
+    for p in rnd.sample(list(all_platforms()), 120):
+        tags = list(p.compatible_tags) + ["any", "bogus"]
+        sc = scores(p, tags)
+        env = EnvSpec(parse_version_specifier(">=3.8"), p, None)
+        for _ in range(30):
+            cases["multi-tag"] += 1
+            sub = rnd.sample(tags, rnd.randint(1, min(4, len(tags))))
+            got = env.compatibility(["py3"], ["none"], sub)
+            want = max((sc[t] for t in sub if sc[t] is not None), default=None)
+            assert (got is None and want is None) or got[3] == want, (p, sub, got, want)
+            name = f"x-1-py3-none-{'.'.join(sub)}.whl"
+            assert env.wheel_compatibility(name) == got
 
 
 if __name__ == "__main__":
-    main()
+    section_exhaustive()
+    section_concrete()
+    section_current()
+    section_parse()
+    section_sequences()
+    print(f"packaging {packaging.__version__}; cases run: {dict(cases)} (total {sum(cases.values())})")
+    for f in findings:
+        print(f)
+    if not findings:
+        print("no divergence found")
